@@ -691,7 +691,9 @@ def select__subsequence(self: XPathFunction, context: ta.ContextType = None) \
         context = self.context
 
     starting_loc = self.get_argument(context, 1, required=True, cls=NumericProxy)
-    if not math.isnan(starting_loc) and not math.isinf(starting_loc):
+    if isinstance(starting_loc, int):
+        pass  # an integer of any size is compared with the positions as it is
+    elif not math.isnan(starting_loc) and not math.isinf(starting_loc):
         starting_loc = float(round_number(starting_loc))
 
     if len(self) == 2:
@@ -700,11 +702,19 @@ def select__subsequence(self: XPathFunction, context: ta.ContextType = None) \
                 yield result
     else:
         length = self.get_argument(context, 2, required=True, cls=NumericProxy)
-        if not math.isnan(length) and not math.isinf(length):
+        if isinstance(length, int):
+            pass
+        elif not math.isnan(length) and not math.isinf(length):
             length = float(round_number(length))
 
+        try:
+            stop = starting_loc + length
+        except OverflowError:
+            # a double and an integer beyond the double range
+            stop = math.inf if length > 0 else -math.inf
+
         for pos, result in enumerate(self[0].select(context), start=1):
-            if starting_loc <= pos < starting_loc + length:
+            if starting_loc <= pos < stop:
                 yield result
 
 
